@@ -112,15 +112,15 @@ def consumer_cases(rnd, vals, count):
             a, b = rnd.choice(vals), rnd.choice(vals)
             out.append({'kind': 'ops', 'a': A.aval(a), 'b': A.aval(b), 'eq': ev('==', a, b), 'ne': ev('!=', a, b), 'lt': ev('<', a, b),
                         'le': ev('<=', a, b), 'gt': ev('>', a, b), 'ge': ev('>=', a, b), 'cmp': sc(a, b)})
-        elif k < 0.5:
+        elif k < 0.45:
             src = vals[:14] if rnd.random() < 0.4 else vals
             arr = [copy.deepcopy(rnd.choice(src)) for _ in range(rnd.randint(0, 9))]
             inp = [A.aval(x) for x in arr]
             res = SF['arraySort']([arr], None)
             out.append({'kind': 'sorted', 'inp': inp, 'out': [A.aval(x) for x in res]})
-        elif k < 0.7:
+        elif k < 0.6:
             out.append(datasort_case(rnd, vals))
-        elif k < 0.85:
+        elif k < 0.72:
             src = vals[:14] if rnd.random() < 0.6 else vals
             args = [rnd.choice(src) for _ in range(rnd.randint(0, 6))]
             which = rnd.choice(['min', 'max'])
@@ -131,6 +131,18 @@ def consumer_cases(rnd, vals, count):
             val = rnd.choice(arr) if arr and rnd.random() < 0.7 else rnd.choice(vals)
             if callable(val):
                 val = None          # a function value would be used as a match function, not compared
+            # the needle in the OTHER host spelling of the same value (int / float, date / datetime at midnight)
+            if rnd.random() < 0.5:
+                if isinstance(val, bool):
+                    pass
+                elif isinstance(val, int) and abs(val) < 2 ** 53:
+                    val = float(val)
+                elif isinstance(val, float) and val == int(val) and abs(val) < 2 ** 53:
+                    val = int(val)
+                elif isinstance(val, datetime.datetime) and val.tzinfo is None and not (val.hour or val.minute or val.second or val.microsecond):
+                    val = val.date()
+                elif isinstance(val, datetime.date) and not isinstance(val, datetime.datetime):
+                    val = datetime.datetime(val.year, val.month, val.day)
             which = rnd.choice(['first', 'last'])
             start = rnd.randint(0, max(0, len(arr) - 1)) if which == 'first' and arr else 0
             from bare_script.value import ValueArgsError
